@@ -518,7 +518,9 @@ class PWLCalibration(keras.layers.Layer):
   def get_config(self):
     """Standard Keras config for serialization."""
     config = {
-        "input_keypoints": self.input_keypoints,
+        "input_keypoints": (self.input_keypoints.tolist()
+                            if isinstance(self.input_keypoints, np.ndarray)
+                            else self.input_keypoints),
         "units": self.units,
         "output_min": self.output_min,
         "output_max": self.output_max,
